@@ -130,7 +130,7 @@ func cmdVerify(args []string) {
 				if o.Result.Status == "unsat" {
 					ok++
 					if *verbose {
-						fmt.Printf("  ok   %-8s %s [%s %.2fs]\n", o.Kind, o.Name, o.Result.Solver, o.Result.Seconds)
+						fmt.Printf("  ok   %-8s %s %v [%s %.2fs]\n", o.Kind, o.Name, o.Result.Tried, o.Result.Solver, o.Result.Seconds)
 					}
 					continue
 				}
